@@ -4,6 +4,7 @@ import (
 	"bytes"
 	"encoding/json"
 	"fmt"
+	"slices"
 	"strings"
 
 	"github.com/cedar-policy/cedar-go/internal/consts"
@@ -138,7 +139,14 @@ func (j arrayJSON) ToNode() (ast.Node, error) {
 
 func (j recordJSON) ToNode() (ast.Node, error) {
 	var nodes ast.Pairs
-	for k, v := range j {
+	// a Go map has no order: walk the keys sorted so that decoding is deterministic
+	keys := make([]string, 0, len(j))
+	for k := range j {
+		keys = append(keys, k)
+	}
+	slices.Sort(keys)
+	for _, k := range keys {
+		v := j[k]
 		if v == nil {
 			return ast.Node{}, fmt.Errorf("error in record: value of `%v` is null", k)
 		}
